@@ -67,9 +67,29 @@ class Outcome:
         return "raised(%s: %s)" % (type(self.exc).__name__, str(self.exc)[:120])
 
 
+ENV_MODE = ["always"]      # what happens to deprecation-class warnings attributed to library lines: recorded ("always") or raised ("error", the environment twin)
+
+
+def env_categories():
+    """warning classes that announce 'this call will stop working': python's own and numpy's visible one"""
+    cats = [DeprecationWarning, PendingDeprecationWarning, FutureWarning]
+    try:
+        cats.append(np.exceptions.VisibleDeprecationWarning)
+    except Exception:
+        pass
+    return cats
+
+
+def quiet_filters():
+    """inside a warnings.catch_warnings() block: everything ignored, except deprecation-class warnings attributed to a module of the library"""
+    warnings.simplefilter("ignore")
+    for cat in env_categories():
+        warnings.filterwarnings(ENV_MODE[0], category=cat, module=r"npstructures(\.|$)")
+
+
 def attempt(f, *a, **k):
     with warnings.catch_warnings():
-        warnings.simplefilter("ignore")
+        quiet_filters()
         try:
             return Outcome(True, f(*a, **k))
         except Exception as e:  # "refused" = any exception (DESIGN 7.5)
